@@ -18,8 +18,8 @@ from pysym import env
 from harness import codecs
 
 SERIALIZERS = ["serpent", "marshal", "json", "msgpack"]
-LEAVES = ["none", "bool", "int", "bigint", "str", "float", "inf", "nan", "bytes", "complex", "uuid", "decimal", "date", "datetime"]
-CORE_LEAVES = ("none", "bool", "int", "bigint", "str", "float", "inf", "nan")
+LEAVES = ["none", "bool", "int", "bigint", "hugeint", "str", "float", "inf", "nan", "bytes", "complex", "uuid", "decimal", "date", "datetime"]
+CORE_LEAVES = ("none", "bool", "int", "bigint", "hugeint", "str", "float", "inf", "nan")
 WRAPS = ["bare", "list", "tuple", "dict", "list-in-dict", "set", "frozenset", "mixed-set"]
 CORE_WRAPS = ("bare", "list", "dict", "list-in-dict")
 
@@ -35,6 +35,9 @@ def make_leaf(S, kind):
         v = S.int("leaf_bigint", -(10 ** 22), 10 ** 22)
         S.assume(Or(v >= 2 ** 64, v < -(2 ** 63)), "the big integer lies outside the 64-bit ranges")
         return v
+    if kind == "hugeint":
+        # integers of more than 70 decimal digits are listed values (their decimal rendering is outside the integer model)
+        return S.choice("leaf_hugeint", [10 ** 70 + 7, -(10 ** 75) - 3, 2 ** 300])
     if kind == "str":
         return S.str("leaf_str", 3)
     if kind == "float":
@@ -134,7 +137,7 @@ def h_roundtrip(S, B):
     r_batch = attempt(lambda: ser.loadsCall(ser.dumpsCall("obj", "<batch>", [("method", (v,), {"kw": v})], None)))
     r_attr = attempt(lambda: ser.loadsCall(ser.dumpsCall("obj", "__setattr__", ("name", v), None)))
     S.cover("ser:" + sname)
-    ext_leaf = lk in ("bigint", "complex", "date", "datetime") or (lk == "int" and not S.must(And(leaf >= -(2 ** 63), leaf < 2 ** 64)))
+    ext_leaf = lk in ("bigint", "hugeint", "complex", "date", "datetime") or (lk == "int" and not S.must(And(leaf >= -(2 ** 63), leaf < 2 ** 64)))
     S.known("C01-msgpack-arguments-are-decoded-without-the-ext-hook", And(sname == "msgpack", ext_leaf),
             checks=["same-mapping-for-arguments-and-results", "arguments-and-results-serialise-alike", "positional-and-keyword-arguments-map-alike"])
     if r_args[0] == "value":
@@ -213,5 +216,5 @@ SPECS = [
                  "check:same-mapping-for-arguments-and-results", "check:mapping-is-idempotent",
                  "check:json-msgpack-deliver-a-set-as-the-list-of-its-members", "check:batch-call-form-serialises-like-a-plain-call"],
          native_patch=env.native_env, reset=_reset,
-         desc="a value (14 leaf kinds: symbolic unbounded int incl. beyond 64 bit, symbolic bool, symbolic string of any code points, floats incl. inf/nan, bytes, complex, uuid, decimal, date, datetime) bare or inside list/tuple/dict/nested/set/frozenset, sent as positional argument, keyword argument and result through each serializer's real dumpsCall/loadsCall/dumps/loads with the codec libraries modelled at their API"),
+         desc="a value (15 leaf kinds: symbolic unbounded int incl. beyond 64 bit and beyond 70 decimal digits, symbolic bool, symbolic string of any code points, floats incl. inf/nan, bytes, complex, uuid, decimal, date, datetime) bare or inside list/tuple/dict/nested/set/frozenset, sent as positional argument, keyword argument and result through each serializer's real dumpsCall/loadsCall/dumps/loads with the codec libraries modelled at their API"),
 ]
